@@ -934,8 +934,11 @@ class Interp:
                 parts.append(str(v.value))
             else:
                 x = self.eval(v.value)
+                plain = v.conversion in (-1, 115) and v.format_spec is None  # no !r / format spec
                 if isinstance(x, (str, int)) and not isinstance(x, bool):
                     parts.append(str(x))
+                elif plain and isinstance(x, (list, tuple, dict, set, bool, float, type(None))) and is_concrete(x) and not _has_sym(x):
+                    parts.append(str(x))  # containers of concrete values print as Python prints them
                 else:
                     return Sym("fstring:" + norm(e))
         return "".join(parts)
